@@ -40,17 +40,19 @@ CHECKS["C13"] = ("proof",
     "byte-level model/implementation correspondence", "DESIGN.md §6 C13")
 
 CHECKS["C15"] = ("proof",
-    "Coq theorem lr_no_panic: for every table passing the verified checker safe_b, every input, every fuel, partial "
-    "on/off, the LR runtime model never reaches an out-of-range index / unwrap / split (token level, default lexer). "
-    "safe_b and reduce_acyclic_b are evaluated by the kernel on the real table of every generated grammar; the real "
-    "LRParser (default lexer and custom lexers that ignore the expected set) and the real GlrParser are run on rendered "
-    "and garbage UTF-8 strings under catch_unwind and a watchdog and must return Ok or Err; LR outcomes also equal the "
-    "byte-level model's. Partial: termination is not proved (reduce_acyclic_b is a sufficient per-table condition; hangs "
-    "are observed by the watchdog; the known reduction-cycle hang is a recorded finding); the custom-lexer clause and "
-    "byte-slicing safety are decided by real runs and correspondence, not by a theorem; stack/memory exhaustion cannot "
-    "be exhibited by the model.",
-    "machine-checked proof in Coq (panic-freedom theorem over validated tables) + kernel-evaluated validators on real "
-    "tables + real-runtime exploration under catch_unwind/watchdog", "DESIGN.md §6 C15")
+    "Coq theorems lr_no_panic and lr_any_lexer_no_panic: for every table passing the verified checker safe_b, every "
+    "input, every fuel, partial on/off, and EVERY lexer (any function of the whole configuration, e.g. a user lexer "
+    "returning kinds the state does not expect or zero-length tokens) the LR runtime model never reaches an out-of-range "
+    "index / unwrap / split; an unexpected kind surfaces as the error result (token level; the default lexer is proved to "
+    "be an instance). safe_b and reduce_acyclic_b are evaluated by the kernel on the real table of every generated "
+    "grammar; the real LRParser (default lexer and two custom lexers that ignore the expected set, each compared with "
+    "its Gallina mirror under run_lex) and the real GlrParser are run on rendered and garbage UTF-8 strings under "
+    "catch_unwind and a watchdog and must return Ok or Err; LR outcomes also equal the byte-level model's. Partial: "
+    "termination is not proved (reduce_acyclic_b is a sufficient per-table condition; hangs are observed by the watchdog; "
+    "the known reduction-cycle hang is a recorded finding); byte-slicing safety is decided by real runs and "
+    "correspondence; stack/memory exhaustion cannot be exhibited by the model.",
+    "machine-checked proof in Coq (panic-freedom theorem over validated tables, any lexer) + kernel-evaluated validators "
+    "on real tables + real-runtime exploration under catch_unwind/watchdog", "DESIGN.md §6 C15")
 
 CHECKS["C12"] = ("proof",
     "Coq theorems (token-level LR model, every table passing complete_b/sound_b): error_no_continuation (an error at "
